@@ -117,7 +117,9 @@ func propSpecs() map[string]*PropSpec {
 			if tier == "quick" && in.T.K == "map" {
 				// quick: maps with scalar keys and scalar values only
 				simple := func(t *Ty) bool {
-					return !t.contains(func(x *Ty) bool { return x.K == "struct" || x.K == "ptr" || (x.K == "basic" && strings.HasPrefix(x.Name, "complex")) })
+					return !t.contains(func(x *Ty) bool {
+						return x.K == "struct" || x.K == "ptr" || (x.K == "basic" && strings.HasPrefix(x.Name, "complex"))
+					})
 				}
 				if !simple(in.T.Key) || !simple(in.T.Elem) || in.T.Elem.K == "array" {
 					return false
@@ -200,7 +202,7 @@ func propSpecs() map[string]*PropSpec {
 	concBounds := Bounds{SliceLen: 2, SpareCap: 0, MapLen: 1, StrLen: 1, PtrDepth: 1, Unwind: 7, CallDepth: 4}
 	add(&PropSpec{ID: "C20", Title: "Do runs all functions concurrently and returns every result and an error", Level: "model_checking",
 		Outside: []string{"more than 3 functions", "functions that communicate against spawn order", "stores by the caller to shared cells after a goroutine was spawned"},
-		RunFn: func(r *Runner) { r.modeC("c20", "^VX_C20_", concBounds) }})
+		RunFn:   func(r *Runner) { r.modeC("c20", "^VX_C20_", concBounds) }})
 	add(&PropSpec{ID: "C19", Title: "Channel combinators deliver every item exactly once under all schedules", Level: "model_checking",
 		Outside: []string{"more than 2 input channels x 2 items", "capacities above 1", "select with send cases or default"},
 		RunFn: func(r *Runner) {
@@ -211,14 +213,14 @@ func propSpecs() map[string]*PropSpec {
 		}})
 	add(&PropSpec{ID: "C07", Title: "Regeneration depends only on current sources, not on the old derived file", Level: "other",
 		Outside: []string{"every byte offset k of an interrupted write (three truncation points are replayed)", "edit sequences other than the listed histories", "go/loader and go/parser behaviour on arbitrary broken files"},
-		Bounds: func(tier string) Bounds { return DefaultBounds }, // the histories are the quantifier here; value bounds stay at the quick setting
-		RunFn:  runC07})
+		Bounds:  func(tier string) Bounds { return DefaultBounds }, // the histories are the quantifier here; value bounds stay at the quick setting
+		RunFn:   runC07})
 	add(&PropSpec{ID: "C10", Title: "User source files are left intact", Level: "other",
 		Outside: []string{"that go/format reproduces every declaration and comment (go/format behaviour)", "file systems without POSIX open/write semantics", "load errors"},
-		RunFn: runC10})
+		RunFn:   runC10})
 	add(&PropSpec{ID: "C09", Title: "Every run ends cleanly: success, or a diagnostic, never a crash or bad file", Level: "other",
 		Outside: []string{"termination and absence of Go panics for every input program", "well-formedness of emitted text in general", "diagnostic wording"},
-		RunFn: runC09})
+		RunFn:   runC09})
 	add(&PropSpec{ID: "C01", Title: "Successful generation yields a complete, type-correct package", Level: "other",
 		Outside: []string{"type-checks for EVERY program: only the corpus instantiations are generated and type-checked", "reflect/unsafe access path for unexported fields of imported structs"},
 		RunFn: func(r *Runner) {
